@@ -31,7 +31,14 @@ class Faults(Part):
         cases = []
         # spec -> code: every fault pattern of the serial model for 1..3 designs (which call fails, with which kind)
         for nd in (1, 2, 3):
-            behs = behaviours(ctx, nd, 1, FAULTS, "serial", 1, "JobGen-faults-%d" % nd, cap=None if nd < 3 else (1200 if ctx.quick else 20000))
+            behs = behaviours(ctx, nd, 1, FAULTS, "serial", 1, "JobGen-faults-%d" % nd)
+            uniq = {}
+            for b in behs:
+                uniq[(tuple(b["pre"]), tuple((h["a"], h["d"]) for h in b["hist"] if h["a"] in ("ok", "transient", "fatal")))] = b
+            behs = list(uniq.values())
+            cap = None if nd < 3 else (1200 if ctx.quick else 20000)
+            if cap and len(behs) > cap:
+                behs = rng.sample(behs, cap)
             for b in behs:
                 cases.append({"kind": "pattern", "pre": b["pre"], "hist": b["hist"], "workers": 1, "cseed": rng.randrange(1 << 30)})
         # the same patterns with two worker threads (per-design outcome sequences)
